@@ -8,6 +8,7 @@ CONSTANTS
   LongSizes = {40}
   LongRuns <- RunsQuick
   FullQueries = 13
+  PauseSizes = {40}
   DevSets <- FixPatches
 SPECIFICATION MCSpec
 INVARIANTS TypeOK KFCoverInv DiffersInv RunAgrees RequestBoundInv
